@@ -135,4 +135,48 @@ def SortedExts : List Extent → Prop
 def ExtsOnDev (bs devSize : Nat) (es : List Extent) : Prop :=
   ∀ e ∈ es, (e.start + e.count) * bs ≤ devSize
 
+/-! ### File.Read with the guard `if leftInExtent < 0 { continue }` (fix ext4-read-extent-out-of-order)
+
+  `skip = false` is the loop above (a negative length reaches `make`, which panics); `skip = true` is the
+  loop with the guard: an extent that lies wholly before the offset the loop has reached is passed over, the
+  state (offset, bytes so far, a hole already zero-filled in front of it) stays.  Which one the tree has is
+  regenerated from file.go on every run (Generated/Ext4Ref.lean readSkipsExtentBefore); the driver runs
+  `sparseReadC` with that switch.  On sorted lists the branch is never reached (Proofs/Ext4ReadSkipNeg.lean). -/
+
+def sparseLoopC (skip : Bool) (dev : Dev) (devSize bs startBlock want : Nat) : List Extent → RdSt → LoopOut
+  | [], st => .done st
+  | e :: es, st =>
+    if e.fileBlock + e.count ≤ startBlock then sparseLoopC skip dev devSize bs startBlock want es st
+    else
+      let holeEnd := e.fileBlock * bs
+      let nz := min (holeEnd - st.off) (want - st.got.length)
+      let st1 : RdSt := if st.off < holeEnd then ⟨st.off + nz, st.got ++ zeros nz, st.ios⟩ else st
+      if st.off < holeEnd ∧ st1.got.length ≥ want then .done st1
+      else
+        let extentSize := e.count * bs
+        let startPos := st1.off - holeEnd
+        if startPos > extentSize then
+          (if skip then sparseLoopC skip dev devSize bs startBlock want es st1 else .panic st1)
+        else
+          let toRead := min (want - st1.got.length) (extentSize - startPos)
+          let disk := e.start * bs + startPos
+          if disk ≥ devSize ∨ disk + toRead > devSize then .fail st1
+          else
+            let st2 : RdSt := ⟨st1.off + toRead, st1.got ++ readAt dev disk toRead, st1.ios ++ [(disk, toRead)]⟩
+            if st2.got.length ≥ want then .done st2
+            else sparseLoopC skip dev devSize bs startBlock want es st2
+
+def sparseReadC (skip : Bool) (dev : Dev) (devSize bs : Nat) (es : List Extent) (size off n : Nat) : ReadOut :=
+  if off ≥ size then .ok ⟨[], off, true, []⟩
+  else
+    let want := if off + n > size then size - off else n
+    match sparseLoopC skip dev devSize bs (off / bs) want es ⟨off, [], []⟩ with
+    | .panic st => .panic st.off
+    | .fail st => .ioerr st.got.length st.off
+    | .done st =>
+      let pad := want - st.got.length
+      let st' : RdSt := if st.got.length < want then ⟨st.off + pad, st.got ++ zeros pad, st.ios⟩ else st
+      .ok ⟨st'.got, st'.off, st'.off ≥ size, st'.ios⟩
+
+
 end Diskfs.Ext4.Reader
